@@ -378,7 +378,7 @@ func genC04(seed uint64, run int, tier string) *Case {
 // (values, positions, tape) still come from the seed.
 
 var c04Shapes = []func(r rng, tier string) *Case{
-	shapeWhereSwitch, shapeTickBetweenNow, shapeTZLiteral, shapePatchShared, shapeStallCompile, shapeClockExact,
+	shapeWhereSwitch, shapeTickBetweenNow, shapeTZLiteral, shapePatchShared, shapeStallCompile, shapeClockExact, shapeOrder, shapeTypedCallbacks,
 }
 
 func baseShape(r rng, tier, name string, types ...string) *genCtx {
@@ -515,6 +515,57 @@ func shapeStallCompile(r rng, tier string) *Case {
 		if i > 6 {
 			c.Tape[i] = c.Tape[i]&0xff00 | uint16(1+r.n(2))
 		}
+	}
+	return c
+}
+
+// shapeOrder: "gives the same result every time" includes the order of a result. Collection
+// functions over many items, evaluated repeatedly by several clients and once more in isolation.
+func shapeOrder(r rng, tier string) *Case {
+	g := baseShape(r, tier, "order", pick(r, []string{"Patient", "Observation", "Encounter", "Questionnaire"}))
+	c := g.c
+	c.Knobs.SwitchThr = 77
+	root := string(g.res[0].ProtoReflect().Descriptor().Name())
+	for _, src := range []string{
+		"%s.descendants().distinct()", "%s.descendants().distinct().first()", "%s.children().children().distinct().take(4)",
+		"%s.descendants().where($this is string).distinct()", "%s.descendants().select($this.toString()).distinct().skip(2).take(3)",
+		"%s.descendants().intersect(%s.descendants()).count()", "%s.descendants().exclude(%s.children()).first()",
+		"%s.descendants().distinct().last()", "%s.children().descendants().distinct()[3]", "%s.descendants().repeat(children()).take(5)",
+		"%s.descendants().distinct().isDistinct()", "%s.descendants().extension.distinct()",
+	} {
+		c.Programs = append(c.Programs, ProgSpec{Src: strings.ReplaceAll(src, "%s", root)})
+	}
+	for ci := 0; ci < 3; ci++ {
+		var ops []Op
+		for oi := 0; oi < 5; oi++ {
+			ops = append(ops, Op{Kind: "eval", Prog: r.n(len(c.Programs)), Res: []int{0}})
+		}
+		c.Clients = append(c.Clients, ops)
+	}
+	return c
+}
+
+// shapeTypedCallbacks: custom functions that take arguments, whose argument expressions yield
+// and tick, shared by all clients: per-invocation state of the function adapter must not be shared.
+func shapeTypedCallbacks(r rng, tier string) *Case {
+	g := baseShape(r, tier, "typed-callbacks", "Patient")
+	c := g.c
+	c.Knobs.SwitchThr = 256
+	opts := []COpt{{Kind: "fn", Name: "y", Fn: "yield"}, {Kind: "fn", Name: "ps", Fn: "probeS"}, {Kind: "fn", Name: "pi", Fn: "probeI"}}
+	c.Programs = []ProgSpec{
+		{Src: "Patient.name.ps(y().count().toString())", Opts: opts},
+		{Src: "Patient.children().ps('a' & y().count().toString())", Opts: opts},
+		{Src: "Patient.descendants().take(3).pi(y().count())", Opts: opts},
+		{Src: "Patient.name.first().pi(y().given.count() + 1)", Opts: opts},
+		{Src: "Patient.telecom.ps(Patient.name.ps('inner').count().toString())", Opts: opts},
+		{Src: "Patient.children().select(ps(y().toString().length().toString()))", Opts: opts},
+	}
+	for ci := 0; ci < 3; ci++ {
+		var ops []Op
+		for oi := 0; oi < 4; oi++ {
+			ops = append(ops, Op{Kind: "eval", Prog: r.n(len(c.Programs)), Res: []int{0}})
+		}
+		c.Clients = append(c.Clients, ops)
 	}
 	return c
 }
